@@ -129,7 +129,13 @@ impl ParseAttribute for InputVariant {
                 return Err(Error::duplicate_field_path(path).with_span(mi));
             }
 
-            if !self.data.is_unit() {
+            // The value is read first: `word = false` declares nothing, on any variant.
+            let word: SpannedValue<bool> = FromMeta::from_meta(mi)?;
+            let declares = *word;
+            // (the occurrence is recorded even when it is faulty, so that a second one is a repeat)
+            self.word = Some(word);
+
+            if declares && !self.data.is_unit() {
                 let note = "`#[darling(word)]` can only be applied to a unit variant";
                 #[cfg(feature = "diagnostics")]
                 let error = Error::unknown_field_path(path).note(note);
@@ -138,8 +144,6 @@ impl ParseAttribute for InputVariant {
 
                 return Err(error.with_span(mi));
             }
-
-            self.word = FromMeta::from_meta(mi)?;
         } else {
             return Err(Error::unknown_field_path(path).with_span(mi));
         }
